@@ -51,6 +51,7 @@ static std::string progBody(const pg::ProgCase& c) {
 	if (lastItem) vh::label("dataset-offset=max");
 	if ((q8 & randomx::CacheLineAlignMask) == randomx::CacheLineAlignMask) vh::label("ma=last-line");
 	if (lastItem && (q8 & randomx::CacheLineAlignMask) == randomx::CacheLineAlignMask) vh::label("first-read=last-dataset-item");
+	if (c.shape == pg::MAXLEN) vh::label(std::string("max-code-size:") + (c.fast ? "fast" : "light") + (c.v2 ? (c.hardAes ? ",v2-hard" : ",v2-soft") : ",v1"));
 	if (c.shape != pg::NATURAL || lastItem) vh::nontrivial(c.hash());
 	return "";
 }
@@ -100,7 +101,7 @@ static std::string apiBody(const ApiCase& c) {
 int main(int argc, char** argv) {
 	auto minimizer = [](const pg::ProgCase& c) { return pg::minimize(c, [](const pg::ProgCase& t) { return !compareEngines(t).empty(); }); };
 	// adversarial shapes: saturated (longest encodings in every slot), store-L3, fp-heavy (CFROUND v2), branchy; natural for the extremes of the configuration block
-	vh::registerCheck<pg::ProgCase>("bounds_prog", [] { return pg::genProgCase({3, 6, 1, 3, 0, 2, 0}, 60); }, progBody, true, minimizer);
+	vh::registerCheck<pg::ProgCase>("bounds_prog", [] { return pg::genProgCase({3, 5, 1, 3, 0, 2, 0, 4}, 55); }, progBody, true, minimizer);
 	vh::registerCheck<ApiCase>("bounds_api", [] {
 		using namespace rc;
 		return gen::resize(100, gen::apply([](int len, int a, int b, int slack, int fl, int batch, uint64_t seed) {
